@@ -49,9 +49,11 @@ func sysSocket(family, sotype, proto int) (int, error) {
 		return -1, os.NewSyscallError("socket", err)
 	}
 	if err = syscall.SetNonblock(s, true); err != nil {
+		vp(vpFdClose, nil, int64(s), 6)
 		syscall.Close(s)
 		return -1, os.NewSyscallError("setnonblock", err)
 	}
+	vp(vpFdOpen, nil, int64(s), 5)
 	return s, nil
 }
 
